@@ -36,17 +36,18 @@ type RuleInfo struct {
 }
 
 type Check struct {
-	Property    string
-	Tier        string
-	Rules       []RuleInfo
-	Obs         []Obligation
-	Explanation string
-	NotDecided  string
-	Assumptions []string
-	Trusted     []string
-	Extra       map[string]interface{}
-	Broken      []string // checker-health problems (exit 2)
-	usedTypes   map[string]bool
+	Property      string
+	Tier          string
+	Rules         []RuleInfo
+	Obs           []Obligation
+	Explanation   string
+	NotDecided    string
+	Assumptions   []string
+	Trusted       []string
+	Extra         map[string]interface{}
+	Broken        []string // checker-health problems (exit 2)
+	usedTypes     map[string]bool
+	anchoredFuncs map[string]bool
 }
 
 func NewCheck(prop, tier string) *Check {
